@@ -34,6 +34,7 @@ const (
 	prLateAfterEviction
 	prMultiEvictOneCall
 	prWidePair
+	prScatter
 	nRProbes
 )
 
@@ -41,7 +42,8 @@ var rProbeNames = []string{"overflow_eviction", "timeout_eviction", "complete_ev
 	"sequence_reused_after_delivery", "sequence_0_delivered", "rollover_inside_buffer", "events_lost_reported",
 	"eoe_completed_buffered_event", "close_flushed_events", "maintain_flushed_events", "push_after_close",
 	"overflow_eviction_of_incomplete_head", "window_edge_offset_used", "call_at_exact_expiry_instant",
-	"late_arrival_after_eviction", "several_evictions_in_one_call", "two_sequence_numbers_more_than_2^24_apart"}
+	"late_arrival_after_eviction", "several_evictions_in_one_call", "two_sequence_numbers_more_than_2^24_apart",
+	"history_dealt_onto_3_to_5_far_apart_sequence_clusters"}
 
 // callback records of one call
 type rGroup struct {
@@ -179,12 +181,23 @@ func ExecRPlan(p *RPlan, trace bool) *core.Result {
 		res.Add(prop, kind, class, fmt.Sprintf(f, a...))
 	}
 	seqOf := func(off uint32) uint32 {
+		if k := uint32(len(p.Scatter)); k != 0 {
+			return p.Scatter[off%k] + off/k
+		}
 		if p.WideB != 0 && off == 1 {
 			return p.WideB
 		}
 		return p.Base + off
 	}
 	offOf := func(seq uint32) (uint32, bool) {
+		if k := uint32(len(p.Scatter)); k != 0 {
+			for c, b := range p.Scatter {
+				if d := seq - b; d < 1<<16 {
+					return d*k + uint32(c), true
+				}
+			}
+			return 0, false
+		}
 		if p.WideB != 0 {
 			if seq == p.WideB {
 				return 1, true
@@ -196,6 +209,9 @@ func ExecRPlan(p *RPlan, trace bool) *core.Result {
 	}
 	if p.WideB != 0 {
 		res.Probes[prWidePair]++
+	}
+	if len(p.Scatter) != 0 {
+		res.Probes[prScatter]++
 	}
 	head := func() *rInst {
 		var hd *rInst
